@@ -101,6 +101,7 @@ type c01Env struct {
 	omu    sync.Mutex
 	obody  map[string]originEntry
 	tiny   map[string]bool // digests of tiny blobs already used by a case on this server
+	after  []c01After      // what to probe again after a restart on the same directory
 }
 
 type originEntry struct {
@@ -509,8 +510,27 @@ func sortInts(a []int) {
 	}
 }
 
+type c01After struct {
+	cs    c01Case
+	hash  string
+	size  int64
+	acked bool
+	B     []byte
+}
+
 func (e *c01Env) judge(cs c01Case, res c01Result, B []byte) {
 	r := e.r
+	if !res.noProbe && cs.Size >= 16 && !res.weak {
+		e.omu.Lock()
+		if len(e.after) < 4000 {
+			keep := B
+			if len(keep) > 256*lib.KiB && !res.acked {
+				keep = nil
+			}
+			e.after = append(e.after, c01After{cs: cs, hash: res.hash, size: res.size, acked: res.acked && res.valid, B: keep})
+		}
+		e.omu.Unlock()
+	}
 	key := fmt.Sprintf("C01:%s:%s:%s", cs.Path, cs.Storage, cs.Corr)
 	detail := map[string]any{"case": cs, "declared_hash": res.hash, "declared_size": res.size, "status": res.status, "valid": res.valid, "weak": res.weak,
 		"replay_note": "content = lib.GenBlob(PCG(seed*7919+case.ID, 0xC01), Size, Content, tag)"}
@@ -583,7 +603,7 @@ func runC01(r *lib.Run) {
 	for ci, cf := range cfgs {
 		e := &c01Env{r: r, obody: map[string]originEntry{}, tiny: map[string]bool{}}
 		e.origin = httptest.NewServer(http.HandlerFunc(e.originHandler))
-		srv, err := lib.StartServer(lib.ServerOpts{MaxSize: 64 << 30, Storage: cf.storage, ZstdImpl: cf.impl, AssetAPI: true})
+		srv, err := lib.StartServer(lib.ServerOpts{Dir: lib.MkTemp("c01"), MaxSize: 64 << 30, Storage: cf.storage, ZstdImpl: cf.impl, AssetAPI: true})
 		if err != nil {
 			r.Inconclusive("server start: " + err.Error())
 			return
@@ -660,8 +680,32 @@ func runC01(r *lib.Run) {
 			B := lib.GenBlob(crng, cs.Size, cs.Content, fmt.Sprintf("C01-s%d-c%d", r.Seed, cs.ID))
 			e.judge(cs, res, B)
 		}
-		// nothing may be left reserved or in temp files after all those failures (cheap sanity, C03/C04 judge it)
+		// Restart on the same directory: a refused upload must not become present later either ("does not make the
+		// claimed digest present"), and every acknowledged blob must still be there and readable.
+		dir := srv.Dir
 		srv.Close()
+		srv2, err := lib.StartServer(lib.ServerOpts{Dir: dir, MaxSize: 64 << 30, Storage: cf.storage, ZstdImpl: cf.impl, AssetAPI: true})
+		if err != nil {
+			r.Violation("C01:restart-failed:"+cf.storage, "restart on the directory after the upload cases failed: "+err.Error(), nil)
+		} else {
+			e.srv = srv2
+			for _, a := range e.after {
+				p := srv2.ProbeCAS(a.hash, a.size)
+				present := p.FindMissingPresent || p.HeadStatus == 200 || p.GetStatus == 200
+				r.Eval()
+				key := fmt.Sprintf("C01:%s:%s:%s", a.cs.Path, a.cs.Storage, a.cs.Corr)
+				det := map[string]any{"case": a.cs, "declared_hash": a.hash, "declared_size": a.size, "probe_after_restart": map[string]any{"findmissing_present": p.FindMissingPresent, "head": p.HeadStatus, "get": p.GetStatus}}
+				if !a.acked && present {
+					r.Violation(key+":refused-but-present-after-restart", fmt.Sprintf("upload that was refused left something behind: after a restart the claimed digest (%s,%d) is reported present (findmissing=%v head=%d get=%d)", a.hash, a.size, p.FindMissingPresent, p.HeadStatus, p.GetStatus), det)
+				}
+				if a.acked && (!(p.FindMissingPresent && p.HeadStatus == 200 && p.GetStatus == 200) || (a.B != nil && !bytes.Equal(p.GetBody, a.B))) {
+					r.Violation(key+":acked-lost-after-restart", fmt.Sprintf("acknowledged blob (%s,%d) is not present/readable after a restart (findmissing=%v head=%d get=%d)", a.hash, a.size, p.FindMissingPresent, p.HeadStatus, p.GetStatus), det)
+				}
+				r.Count("restart-probe." + map[bool]string{true: "acked", false: "refused"}[a.acked])
+			}
+			srv2.Close()
+		}
+		_ = removeAll(dir)
 		e.origin.Close()
 	}
 }
